@@ -21,6 +21,8 @@ pub(crate) enum Act {
     Alloc,
     /// clear (drop) traced slot 0 of self
     ClearSlot0,
+    /// store a clone of self into self's own traced slot 1 (resurrection into an unreachable cycle)
+    ResurrectIntoSelf,
 }
 
 pub(crate) struct Ghost {
